@@ -53,6 +53,9 @@ inductive Op
       (output:CONTROLLER with `max_len = dl`): the packet is re-buffered WHILE its old slot is still occupied
       (`_process_actions_for_packet` runs before the slot is cleared), then the old slot is freed -/
   | useCtl (id : Nat) (dl : Nat)
+  /-- packet_out / flow_mod naming a buffer id with an EMPTY action list (= drop the packet): nothing is emitted, the
+      buffer is released all the same -/
+  | drop (id : Nat)
   | setMiss (n : Nat)
 
 inductive Out
@@ -90,6 +93,7 @@ def step (s : St) : Op → St × Out
   | .arrive fr port dl => arriveStep s fr port dl
   | .use id => useStep s id
   | .useCtl id dl => useCtlStep s id dl
+  | .drop id => ((useStep s id).1, .nothing)
   | .setMiss n => ({ s with missLen := n }, .nothing)
 
 def init (max missLen : Nat) : St := { pool := { slots := [], max := max }, missLen := missLen, handed := [] }
